@@ -32,6 +32,17 @@ def step (j : Json) : Option String := do
   else if op == "sterile" then
     let starts ← (← fArr j "starts").mapM jNat
     pure (hexOfBytes (sterile starts (← fBytes j "frame")))
+  else if op == "build" then
+    let ds ← (← fArr j "dgrams").mapM fun d => do
+      match ← jArr d with
+      | [w, c, n, k] => pure ({ writer := ← jBool w, cmd := ← jNat c, len := ← jNat n, counter := ← jNat k } : Dgram)
+      | _ => none
+    let p := build ds
+    let showW := fun (w : Writer) => s!"{w.cmdPos}:{w.wkcPos}:{w.cmd}:{w.expected}"
+    let ws := match p.writers with
+      | some ws => joinSp (ws.map showW)
+      | none => "key-error"
+    pure s!"size={p.size} starts=[{joinSp (p.starts.map toString)}] writers=[{ws}] declared=[{joinSp ((declared ds).map showW)}]"
   else if op == "hist" then
     let evs ← (← fArr j "events").mapM parseEv
     let (s, os) := Dispatch.runHist (← fBool j "reg") ⟨← fNat j "c", []⟩ evs
